@@ -92,3 +92,6 @@ Print Assumptions C18_nil_is_final.
 Print Assumptions C18_emit_needs_running.
 Print Assumptions C18_returned_needs_nil_end.
 Print Assumptions C18_returned_snapshot_src_closed.
+Print Assumptions C18_two_failures_then_nil.
+Print Assumptions C18_setup_fail_run.
+Print Assumptions C18_start_after_failed_setup_rejected.
